@@ -132,7 +132,7 @@ CHECKS = {
                      "queries at lowest(), first-1, last+1, max-1, empty dynamic containers, iterators driven to end(), boxes reaching the last stored point; "
                      "plus every file of replays/regress/*. non-trivial: n <= 3 or data touching lowest()/max-1 or a chunked build or a query outside "
                      "[front,back] (static families), a merge beyond the buffer (dynamic), every multidimensional case; distinct by canonical tape hash"),
-            "quick": {"shards": 1, "cases": 700, "crash_shrink_budget": 300}, "thorough": {"shards": 2, "cases": 6000, "crash_shrink_budget": 600}},
+            "quick": {"shards": 1, "cases": 700, "crash_shrink_budget": 300}, "thorough": {"shards": 2, "cases": 3500, "crash_shrink_budget": 600}},
     "C19": {"engine": "e_copy", "variant": "asan",
             "quick": {"shards": 8, "cases": 1200, "crash_shrink_budget": 300}, "thorough": {"shards": 16, "cases": 10000, "crash_shrink_budget": 600}},
     "C16": {"engine": "e_conc", "variant": "tsan",
